@@ -658,7 +658,7 @@ def check_C12(res):
 
 def check_C13(res):
     q = res.tier == "quick"
-    trace_stage(res, ["writer", res.seed + 7, 2500 if q else 80000], "TraceWriter", "writer", ["C13"])
+    trace_stage(res, ["writer", res.seed + 7, 2500 if q else 80000], "TraceWriter", "writer", ["C13", "C12:undecodable"])
     server_stage(res, "resolve", 2 if q else 40, ["C13"])
     return "the writer sequences of C12 over a name pool with shared suffixes and case variants (every pointer of every finished message is checked), plus all server responses of the resolve profile"
 
